@@ -333,6 +333,15 @@ def _convert_file_to_config(filepath: str = None, variables_dictionary: dict = g
         if spec.get("transport_type"):
             transport_type = spec["transport_type"]
 
+        #: Both are words, normalised to upper case below: anything else
+        #: (a number, a list) is not a mode or a transport.
+        for key, value in (("mode", spec["mode"]),
+                           ("transport_type", transport_type)):
+            if not isinstance(value, str):
+                raise InvalidConfigValue(f"Invalid config value "\
+                                         f"'{value}' found for "\
+                                         f"config key '{key}'")
+
         configs.append({
                             "MODE": spec["mode"].upper(),
                             "TRANSPORT_TYPE": transport_type.upper(),
